@@ -26,7 +26,7 @@ def BOUNDS(tier):
             % (len(SKEL), 4 if tier == "quick" else 6))
 
 
-SKEL = ("get11", "pct", "cl_pipe", "chunk1", "chunk_ext_tr", "cl_te", "obsfold", "lead_crlf", "pipe3")
+SKEL = ("get11", "pct", "expect", "cl_pipe", "chunk1", "chunk_ext_tr", "cl_te", "obsfold", "lead_crlf", "pipe3")
 RUNS = (1, 19, 20, 4299, 4300, 4301, 5000, 70000)
 
 
